@@ -14,15 +14,16 @@
    count / reference-table half of the statement is covered by the `_partial` theorems
    below only as far as the fragment goes.                                                *)
 From Coq Require Import ZArith List Permutation.
-From SFV Require Import Base Interp.
+From SFV Require Import Base RandRange RowHistory Interp.
 From SFV.P Require Import InterpP InterpHeapP IdsP RefsP OnceP ContP.
 Import ListNotations. Open Scope Z_scope. Open Scope string_scope.
 
 (* the main statement *)
 Theorem C04_split_eq_unsplit :
   forall (r : recipe) (ks : list nat) (rowss : list (list orow)),
+    hist_tables (env_of r) = [] ->           (* the recipe has no random_reference *)
     forallb is_obj (r_stmts r) = true -> all_positive ks -> ks <> [] ->
-    cuts_persistable (env_of r) (r_stmts r) ks false (init_st (env_of r)) ->
+    cuts_persistable (env_of r) (r_stmts r) ks false (init_st (env_of r) (r_draws r)) ->
     run_history r ks None = Ok rowss ->
     run_history r [fold_right Nat.add 0%nat ks] None = Ok [concat rowss].
 Proof. exact split_eq_unsplit. Qed.
@@ -31,6 +32,7 @@ Print Assumptions C04_split_eq_unsplit.
 (* a continued run never fails where the uninterrupted run completes *)
 Theorem C04_continuation_never_fails :
   forall r k1 k2 sF,
+    hist_tables (env_of r) = [] ->
     forallb is_obj (r_stmts r) = true ->
     run_fresh r (S k1 + k2) = Ok sF ->
     exists s1, run_fresh r (S k1) = Ok s1 /\
@@ -55,13 +57,13 @@ Print Assumptions C04_frames_restored.
 
 Theorem C04_load_after_save_is_identity :
   forall e s, boundary e s -> persistable s ->
-    exists c, save s = Ok c /\ load e c = upd_out s [].
+    exists c, save s = Ok c /\ load e c = Ok (upd_out s []).
 Proof. exact save_load_id. Qed.
 Print Assumptions C04_load_after_save_is_identity.
 
 (* a continued run resumes numbering immediately after the highest id in the file *)
 Theorem C04_ids_resume_partial :
-  forall e s c T, save s = Ok c -> last_id (load e c) T = last_id s T.
+  forall e s c s0 T, save s = Ok c -> load e c = Ok s0 -> last_id s0 T = last_id s T.
 Proof. exact resume_after_highest. Qed.
 Print Assumptions C04_ids_resume_partial.
 
@@ -96,8 +98,7 @@ Print Assumptions C04_continued_run_keeps_singletons_partial.
 (* references written by a continued run resolve inside the run or to an id recorded in the file *)
 Theorem C04_continued_refs_resolve_partial :
   forall r k s c s',
-    Bd s -> save s = Ok c ->
-    (forall T, 0 <= match lookup T (k_ids c) with Some z => z | None => 0 end) ->
+    Bd s -> V s -> save s = Ok c ->
     run_one r k (Some c) = Ok s' ->
     forall row n T i, In row (out s') -> In (n, ORef T i) (snd row) -> hidden T = false ->
       (1 <= i <= last_id s T) \/ exists row', In row' (out s') /\ fst row' = T /\ orow_id row' = [i].
@@ -109,11 +110,11 @@ Definition ex4 : recipe :=
   mkRecipe 3 []
     [SObj (Tpl "J" (Some "jj") None true [("n", FLitInt 7)] []);
      SObj (Tpl "A" None (Some (FLitInt 2)) false
-            [("a", FRef "jj"); ("b", FFormula [PExpr (EAdd (EAttr (EVar "jj") "n") (EVar "id"))])] [])].
+            [("a", FRef "jj"); ("b", FFormula [PExpr (EAdd (EAttr (EVar "jj") "n") (EVar "id"))])] [])] [].
 
 Example C04_ex_premises :
-  forallb is_obj (r_stmts ex4) = true /\ all_positive [1; 2]%nat.
-Proof. split; [reflexivity|repeat constructor]. Qed.
+  hist_tables (env_of ex4) = [] /\ forallb is_obj (r_stmts ex4) = true /\ all_positive [1; 2]%nat.
+Proof. split; [reflexivity|split; [reflexivity|repeat constructor]]. Qed.
 
 Example C04_ex_split_eq_unsplit :
   match run_history ex4 [1; 2]%nat None, run_history ex4 [3]%nat None with
@@ -124,11 +125,11 @@ Proof. vm_compute. reflexivity. Qed.
 
 (* the semantic premise is satisfiable: at the cut of 1+2 the just_once row of ex4 holds scalars *)
 Example C04_ex_cuts_persistable :
-  cuts_persistable (env_of ex4) (r_stmts ex4) [1; 2]%nat false (init_st (env_of ex4)).
+  cuts_persistable (env_of ex4) (r_stmts ex4) [1; 2]%nat false (init_st (env_of ex4) (r_draws ex4)).
 Proof.
   cbn [cuts_persistable]. intros s H.
-  remember (iterations 1 (env_of ex4) (r_stmts ex4) false (init_st (env_of ex4))) as res eqn:Er.
+  remember (iterations 1 (env_of ex4) (r_stmts ex4) false (init_st (env_of ex4) (r_draws ex4))) as res eqn:Er.
   vm_compute in Er. subst res. injection H as <-. split.
   - unfold persistable. cbn. intros h [<-|[<-|[]]]; eexists; split; reflexivity.
-  - intros c1 _. exact I.
+  - intros c1 s1 _ _. exact I.
 Qed.
